@@ -199,7 +199,7 @@ class Exec:
         self.gaddr = {}     # IR globals not present in the snapshot get addresses here
         self.gnext = 0x6000_0000_0000
         self.faddr = {}; self.addr2f = {}
-        self.ginit = []
+        self.ginit = []; self.gimg = State()
         self.int_range = (-64, 64)
         self.check_mem = True
         self.fcount = {}
@@ -208,6 +208,7 @@ class Exec:
         self.branch_timeout = 30000
         self.ext_prefix = [('_ZN4vfps7Display9printText', ext_noop)]      # logging is not the subject
         self.max_paths = 1500
+        self.fork_filter = None      # optional: decide a genuine two-way fork (path-tree partitioning); returns None (explore both) | True | False
         self.time_budget = 150
 
     # ---------------- memory
@@ -215,7 +216,8 @@ class Exec:
         pn = addr >> 12
         pg = st.pages.get(pn)
         if pg is None:
-            base = self.snap.read(pn << 12, 4096)
+            gi = self.gimg.pages.get(pn) if st is not self.gimg else None
+            base = bytes(gi) if gi is not None else self.snap.read(pn << 12, 4096)
             if base is None:
                 b = bytearray(4096); ok = False
                 for i in range(0, 4096, 8):
@@ -371,12 +373,14 @@ class Exec:
         self.ginit.append((a, ty, init))
         return a
     def flush_ginit(self, st):
+        # initialisers of IR-only globals go to an image shared by all states (a state that already copied the page gets the bytes too)
         while self.ginit:
             a, ty, init = self.ginit.pop()
             cm = self.check_mem; self.check_mem = False
             try:
-                self.write_bytes(st, a, bytes(self.m.sizeof(ty)))
-                if init is not None: self.store_const(st, a, ty, init)
+                for tgt in ([self.gimg, st] if ((a >> 12) in st.pages or ((a + self.m.sizeof(ty)) >> 12) in st.pages) else [self.gimg]):
+                    self.write_bytes(tgt, a, bytes(self.m.sizeof(ty)))
+                    if init is not None: self.store_const(tgt, a, ty, init)
             finally: self.check_mem = cm
     def store_const(self, st, a, ty, c):
         ty = self.m.resolve(ty)
@@ -662,9 +666,13 @@ class Exec:
                     cb = self.as_bool(c)
                     ft = self.feasible(st, cb); ff = self.feasible(st, z3.Not(cb))
                     if ft and ff:
-                        self.stats['forks'] += 1
-                        o = st.fork(); o.pc.append(z3.Not(cb)); of = o.frames[-1]; self.goto(o, of, ins['f']); work.append(o)
-                        st.pc.append(cb); tgt = ins['t']
+                        choice = self.fork_filter(st) if self.fork_filter else None
+                        if choice is None:
+                            self.stats['forks'] += 1
+                            o = st.fork(); o.pc.append(z3.Not(cb)); of = o.frames[-1]; self.goto(o, of, ins['f']); work.append(o)
+                            st.pc.append(cb); tgt = ins['t']
+                        elif choice: st.pc.append(cb); tgt = ins['t']
+                        else: st.pc.append(z3.Not(cb)); tgt = ins['f']
                     elif ft: tgt = ins['t']
                     elif ff: tgt = ins['f']
                     else: raise Unsupported('infeasible path')
